@@ -1,2 +1,27 @@
+/* security description routines (C17); RSN/WPA classification ops are added below as they are built */
 #include "h.h"
-const struct op ops_sec[] = { {NULL, NULL} };
+
+/* secstr <routine 0..3> <info>: exactly LIBWIFI_SECURITY_BUF_LEN bytes on the heap (ASan red zone behind) */
+static void op_secstr(int nt, char **t) {
+    (void) nt;
+    int k = (int) tok_ll(t[1]);
+    struct libwifi_bss bss; memset(&bss, 0, sizeof bss);
+    bss.encryption_info = tok_ull(t[2]);
+    char *buf = __real_malloc(LIBWIFI_SECURITY_BUF_LEN);
+    memset(buf, 0x7E, LIBWIFI_SECURITY_BUF_LEN);
+    switch (k) {
+        case 0: LIB(libwifi_get_security_type(&bss, buf)); break;
+        case 1: LIB(libwifi_get_group_ciphers(&bss, buf)); break;
+        case 2: LIB(libwifi_get_pairwise_ciphers(&bss, buf)); break;
+        default: LIB(libwifi_get_auth_key_suites(&bss, buf)); break;
+    }
+    size_t n = strnlen(buf, LIBWIFI_SECURITY_BUF_LEN);
+    if (n >= LIBWIFI_SECURITY_BUF_LEN) printf("secstr UNTERMINATED");
+    else { printf("secstr %zu ", n); out_hex((unsigned char *) buf, n); }
+    __real_free(buf);
+}
+
+const struct op ops_sec[] = {
+    {"secstr", op_secstr},
+    {NULL, NULL},
+};
